@@ -37,3 +37,10 @@ Qed.
 Corollary current_get_ignores_map db m1 m2 k clock :
   Current_get_src (inject_current db m1) (VStr k) clock = Current_get_src (inject_current db m2) (VStr k) clock.
 Proof. rewrite !current_get_refines. reflexivity. Qed.
+
+(* idpyoidc.message.oauth2.is_error_message (how the relying party's services tell an error response from an answer): the
+   presence of a member called `error`, whatever its value and whatever else the message carries - the test
+   `has_key (PS "error") d` of Model/RpState.v *)
+Theorem is_error_message_refines d clock :
+  is_error_message_src (VDict d) clock = Ok (VBool (has_key (PS "error") d)).
+Proof. unfold is_error_message_src. cbn [bind py_in]. destruct (has_key (PS "error") d); reflexivity. Qed.
